@@ -40,6 +40,9 @@ func (c *Ctx) primInstancesOpt(named bool) []primInst {
 			for _, a := range strings.FieldsFunc(n[i+1:len(n)-1], func(r rune) bool { return r == ',' || r == ' ' }) {
 				a = strings.TrimSpace(a)
 				a = strings.ReplaceAll(a, modPath+"/codec.", "")
+				if a == "byte" {
+					a = "uint8" // (go/ssa names the instance after whichever spelling it met first)
+				}
 				p.TArgs = append(p.TArgs, a)
 			}
 			if fn.Origin() == nil {
